@@ -384,6 +384,14 @@ Proof.
   - intros [c H]. split; [|tauto]. now exists (c, n).
 Qed.
 
+(* no node has two accepted observations => the comparator of transformAndSortObservations never reaches [0] *)
+Lemma tas_panics_nodup (acc : acc_t) : NoDup (map fst acc) -> tas_panics acc = false.
+Proof.
+  induction acc as [|a acc IH]; cbn [tas_panics map]; [reflexivity|]. intros N. inversion N as [|? ? Ha N']; subst.
+  rewrite (IH N'), orb_false_r. apply not_true_is_false. intros H. apply existsb_exists in H as (b & Hb & E).
+  apply andb_true_iff in E as [E _]. apply N.eqb_eq in E. apply Ha. rewrite E. now apply in_map.
+Qed.
+
 Section Inv.
   Variable edv : N -> observation -> N -> bool.
   Variable vrs : N -> N -> report -> bool.
@@ -814,6 +822,7 @@ Section InvB.
     set (vs := flat_map (fun a => plain (snd a)) acc) in *.
     destruct (select_roots sc vs us) as [rep0|] eqn:Esel; [|discriminate].
     destruct (negb (c_dest_known cfg)); [discriminate|].
+    destruct (tas_panics acc); [discriminate|].
     set (gs := send_sigs_first cfg sc _ _) in *.
     destruct (lt_f_plus_one _ _); [discriminate|]. inversion H; subst sb. clear H.
     assert (GI : gs_inv gs).
@@ -1005,6 +1014,7 @@ Section Main.
         * unfold startB in Eb. destruct (all_votes acc); try (inversion Eb; subst; cbn; trivial).
           destruct (select_roots sc a us); [|inversion Eb; subst; cbn; trivial].
           destruct (negb (c_dest_known cfg)); [inversion Eb; subst; cbn; trivial|].
+          destruct (tas_panics acc); [inversion Eb; subst; cbn; trivial|].
           destruct (lt_f_plus_one _ _); [inversion Eb; subst; cbn; trivial|discriminate].
       + destruct f; cbn; auto.
         (* phase A never reports success itself *)
@@ -1080,6 +1090,7 @@ Section Main.
         rewrite (all_votes_32 acc H32) in C.
         destruct (select_roots _ _ _); [|discriminate].
         destruct (negb (c_dest_known cfg)); [discriminate|].
+        rewrite (tas_panics_nodup acc (proj1 G)) in C.
         destruct (lt_f_plus_one _ _); discriminate.
       + inversion C; subst f. clear C.
         destruct e as [n b| |]; cbn [stepA] in Es; [| |discriminate].
@@ -1552,6 +1563,7 @@ Section LiveMainA.
         destruct (all_votes acc); try (inversion Eb; subst; cbn; trivial).
         destruct (select_roots sc a us); [|inversion Eb; subst; cbn; unfold failsA; intuition discriminate].
         destruct (negb (c_dest_known cfg)); [inversion Eb; subst; cbn; unfold failsA; intuition discriminate|].
+        destruct (tas_panics acc); [inversion Eb; subst; cbn; trivial|].
         destruct (lt_f_plus_one _ _); [inversion Eb; subst; cbn; unfold failsA; intuition discriminate|discriminate].
       + assert (Hf : f = Crash \/ f = Failure FInsufObs).
         { destruct e as [n b| |]; cbn [stepA] in Es; [| |congruence].
@@ -2066,7 +2078,7 @@ Section LiveFull.
       pose proof (Huniq r0 E). subst r0.
       apply select_root_complete; auto. }
     assert (Cont_eq : exists sb, startB cfg sc us acc k log = Cont sb /\ liveB cfg sc hon sb).
-    { unfold startB. rewrite (all_votes_32 acc H32). fold vs. rewrite Sel, dest_known. cbn [negb].
+    { unfold startB. rewrite (all_votes_32 acc H32). fold vs. rewrite Sel, dest_known. cbn [negb]. rewrite (tas_panics_nodup acc (proj1 G)).
       set (gs := send_sigs_first cfg sc _ _).
       destruct (send_sigs_first_live cfg sc nofail fresh (order_by (s_shufB1 sc) (signer_nodes cfg))
                   (mkSigsend [] [] k log)) as ([F E] & B & _).
@@ -2355,3 +2367,46 @@ Module LiveWitness.
       + exists (firstn 4 live_run), (skipn 5 live_run), 4%N, (sig_of 1201%N). split; [reflexivity|]. vm_compute. auto.
   Qed.
 End LiveWitness.
+
+(* ---------- the comparator of transformAndSortObservations (reviewer's question, "F31") ---------- *)
+(* In every reachable phase-A state of the repaired code no node is the addressee of two observation requests and no
+   node has two accepted observations; so the equal-SignerNodeIndex branch of the comparator, the only place that
+   indexes FixedDestLaneUpdates[0], is never taken (tas_panics = false), whatever the lane-update lists contain. *)
+Theorem one_observation_per_node edv vrs cfg sc :
+  NoDup (map sg_node (c_signers cfg)) ->
+  forall evs us s, run edv vrs fixed cfg sc evs = GA us s ->
+    NoDup (map snd (a_ids s)) /\ NoDup (map fst (a_acc s)) /\ tas_panics (a_acc s) = false.
+Proof.
+  intros ND evs us s H. pose proof (ginv_run edv vrs cfg sc ND evs) as G. rewrite H in G. destruct G as [_ I].
+  split; [apply (iA_ids _ _ _ _ _ I)|]. destruct (iA_acc _ _ _ _ _ I) as [N _]. split; [exact N|now apply tas_panics_nodup].
+Qed.
+
+Module SortWitness.
+  Import Witness.
+  (* an observation without lane updates, correctly signed by node 1 *)
+  Definition empty_obs : payload := PObs (mkSO (Some (mkObs (Some (1, 7)) 3 []))%N 21%N).
+  (* node 1 answers its own request, then (empty) the request sent to node 2; after the timer node 3 is asked and
+     answers: two votes, phase A returns, and node 1 has two accepted observations one of which is empty *)
+  Definition sort_run : list event :=
+    [Resp 1 (BMsg 1 (obs_of 21 105)); Resp 1 (BMsg 2 empty_obs); TimerFire; Resp 3 (BMsg 3 (obs_of 23 105))]%N.
+
+  Lemma sort_run_unfixed_panics : exists l, run edv vrs unfixed cfg sc sort_run = GFinal Crash l.
+  Proof. eexists. vm_compute. reflexivity. Qed.
+  Lemma sort_run_fixed_goes_on : exists s, run edv vrs fixed cfg sc sort_run = GB s /\ length (b_acc s) = 2%nat.
+  Proof. eexists. split; vm_compute; reflexivity. Qed.
+  (* a zero-lane observation from a node with ONE request is harmless in both versions *)
+  Lemma zero_lanes_single_harmless :
+    exists s, run edv vrs unfixed cfg sc [Resp 1 (BMsg 1 empty_obs); Resp 2 (BMsg 2 (obs_of 22 105)); TimerFire;
+                                          Resp 3 (BMsg 3 (obs_of 23 105))]%N = GB s.
+  Proof. eexists. vm_compute. reflexivity. Qed.
+End SortWitness.
+
+Theorem sort_panic_unfixed_refuted :
+  exists edv vrs cfg sc evs,
+    (exists l, run edv vrs unfixed cfg sc evs = GFinal Crash l) /\
+    (exists s, run edv vrs fixed cfg sc evs = GB s).
+Proof.
+  exists Witness.edv, Witness.vrs, Witness.cfg, Witness.sc, SortWitness.sort_run.
+  split; [exact SortWitness.sort_run_unfixed_panics|].
+  destruct SortWitness.sort_run_fixed_goes_on as (s & H & _). now exists s.
+Qed.
